@@ -1,0 +1,15 @@
+//go:build verif
+
+// Contracts for the deductive verifier under /verif (govc). Comment-only file: it adds no code and is
+// compiled only with the build tag "verif".
+
+package enum
+
+// ---- enum rule items (C17): classified and decoded exactly like inline enum items (constraint.NewEnumItem) ----
+
+//@ func newEnumItem
+//@   property C17
+//@   requires len(b.data) <= 1099511627776
+//@   at call:TrimSpaces.after bind t = ret0
+//@   at return assert result.jsonType == (eqlit(t.data, "{") ? 1 : (eqlit(t.data, "[") ? 2 : literalTypeOf(t.data)))
+//@   at return assert result.value == (literalTypeOf(t.data) == 3 ? unquotedStr(t) : str(t.data))
